@@ -1246,7 +1246,7 @@ func contains(container, item interface{}) (bool, error) {
 				}
 			}
 		case reflect.Map:
-			for _, key := range rv.MapKeys() {
+			for _, key := range sortedMapKeys(rv) {
 				if toString(key.Interface()) == itemStr {
 					return true, nil
 				}
@@ -1859,13 +1859,13 @@ func (e *CoreExtension) filterMerge(value interface{}, args ...interface{}) (int
 		// own value type: merge string-keyed ones into a map[string]interface{}
 		if rv.Type().Key().Kind() == reflect.String && rv.Type().Elem().Kind() != reflect.Interface {
 			merged := make(map[string]interface{}, rv.Len())
-			for _, key := range rv.MapKeys() {
+			for _, key := range sortedMapKeys(rv) {
 				merged[key.String()] = rv.MapIndex(key).Interface()
 			}
 			for _, arg := range args {
 				argRv := reflect.ValueOf(arg)
 				if argRv.Kind() == reflect.Map {
-					for _, key := range argRv.MapKeys() {
+					for _, key := range sortedMapKeys(argRv) {
 						merged[toString(key.Interface())] = argRv.MapIndex(key).Interface()
 					}
 				}
@@ -1877,7 +1877,7 @@ func (e *CoreExtension) filterMerge(value interface{}, args ...interface{}) (int
 		resultMap := reflect.MakeMap(rv.Type())
 
 		// Copy original values
-		for _, key := range rv.MapKeys() {
+		for _, key := range sortedMapKeys(rv) {
 			resultMap.SetMapIndex(key, rv.MapIndex(key))
 		}
 
@@ -1885,7 +1885,7 @@ func (e *CoreExtension) filterMerge(value interface{}, args ...interface{}) (int
 		for _, arg := range args {
 			argRv := reflect.ValueOf(arg)
 			if argRv.Kind() == reflect.Map {
-				for _, key := range argRv.MapKeys() {
+				for _, key := range sortedMapKeys(argRv) {
 					val := argRv.MapIndex(key)
 					// Entries that do not fit the receiver's key or value type cannot
 					// be stored in a map of that type
@@ -2332,7 +2332,7 @@ func (e *CoreExtension) functionMerge(args ...interface{}) (interface{}, error) 
 		} else {
 			// Use reflection for other map types
 			baseRv := reflect.ValueOf(base)
-			for _, key := range baseRv.MapKeys() {
+			for _, key := range sortedMapKeys(baseRv) {
 				keyStr := toString(key.Interface())
 				result[keyStr] = baseRv.MapIndex(key).Interface()
 			}
@@ -2349,7 +2349,7 @@ func (e *CoreExtension) functionMerge(args ...interface{}) (interface{}, error) 
 				// Use reflection for other map types
 				argRv := reflect.ValueOf(arg)
 				if argRv.Kind() == reflect.Map {
-					for _, key := range argRv.MapKeys() {
+					for _, key := range sortedMapKeys(argRv) {
 						keyStr := toString(key.Interface())
 						result[keyStr] = argRv.MapIndex(key).Interface()
 					}
